@@ -30,7 +30,9 @@ def run(tier):
     return ec.run_property(PID, tier, jobs,
                            'generated programs stopped with ERROR / CANCELLED / SUCCESS at a random step (some while PAUSED), results still '
                            'in flight delivered afterwards; non-trivial = distinct runs with an acknowledged stop',
-                           _nontrivial)
+                           _nontrivial, strict=True,
+                           model_runs=lambda d: ec.catalogue_model_runs(d, tier, ops=2, kinds=('stop',), tag='_s2') +
+                           ec.catalogue_model_runs(d, tier, ops=2, kinds=('pause', 'stop'), tag='_ps2'))
 
 
 def replay(path):
